@@ -712,7 +712,7 @@ impl WdlRoundtrip {
     pub fn single(tier: Tier) -> Self {
         let mut cases = vec![];
         let holem: Vec<usize> = tier.pick(vec![2], vec![0, 1, 2]);
-        let shapes: Vec<usize> = tier.pick(vec![3], vec![0, 2, 5]);
+        let shapes: Vec<usize> = tier.pick(vec![3], (0..SHAPES_Q).collect());
         for vi in 0..tier.pick(NV_Q, NV) {
             for &holemode in &holes_for(vi, &holem) {
                 for &shape in &shapes {
